@@ -219,7 +219,7 @@ var idlTokens = []string{"package", "interface", "struct", "enum", "end", "fn", 
 	"Vec<", "Map<", "Tuple<", "int32", "str", "any", "obj", "bool", "float64", "unknown", "A", "b", "x1", "_", "0", "-1", "\n", "\n", " ", "\t", "é", "\x00"}
 
 func c18(c *wk.Ctx) {
-	c.Note("rule", "streams: roundtrip = packages of 1-3 generated meta-objects (methods with tuple parameter signatures and any return incl. v, signals and properties with tuple signatures; signatures from the grammar with structs shared between actions, nested tuples, template-style struct names, m o X; unique uids in 1..2^32-1; names = identifiers avoiding IDL keywords and basic-type prefixes): ParseIDL(GenerateIDL(m)) must give the same uids, names and signatures; edge = the same with names that start with a basic IDL type name, IDL keywords as names, or empty nested tuples; text = arbitrary text (random bytes, IDL token soup, mutated valid IDL) must yield a package or an error, never a panic. Distinct non-trivial = distinct generated IDL texts with at least one action (roundtrip) / distinct texts (text).")
+	c.Note("rule", "streams: roundtrip = packages of 1-3 generated meta-objects (methods with tuple parameter signatures and any return incl. v, signals and properties with tuple signatures; signatures from the grammar with structs shared between actions, nested tuples, template-style struct names, m o X; unique uids in 1..2^32-1; names = identifiers avoiding IDL keywords and basic-type prefixes): ParseIDL(GenerateIDL(m)) must give the same uids, names and signatures; edge = the same with names that start with a basic IDL type name, IDL keywords as names, or empty nested tuples; text = arbitrary text (random bytes, IDL token soup, mutated valid IDL, valid IDL cut anywhere and ending in the beginning of a comment) must yield a package or an error, never a panic. Distinct non-trivial = distinct generated IDL texts with at least one action (roundtrip) / distinct texts (text).")
 	depth := c.Pick(3, 5)
 	c.Cases("roundtrip", c.Pick(5000, 200000), func(i int, rng *rand.Rand) {
 		g := genMetaPackage(rng, 1+rng.Intn(depth), nil)
@@ -286,7 +286,9 @@ func c18(c *wk.Ctx) {
 	})
 	c.Cases("text", c.Pick(20000, 500000), func(i int, rng *rand.Rand) {
 		var text string
-		switch i % 4 {
+		switch i % 5 {
+		case 4:
+			text = cutIDL(rng)
 		case 0:
 			b := make([]byte, rng.Intn(300))
 			rng.Read(b)
@@ -343,6 +345,28 @@ func c18(c *wk.Ctx) {
 			c.Sample(map[string]interface{}{"stream": "text", "text": clip(text), "accepted": err == nil})
 		}
 	})
+}
+
+// cutIDL returns a prefix of a valid generated IDL text (cut anywhere, or right after a complete
+// line), possibly followed by the beginning of a comment: what an editor buffer or a truncated file holds.
+func cutIDL(rng *rand.Rand) string {
+	g := genMetaPackage(rng, 1+rng.Intn(2), nil)
+	var buf bytes.Buffer
+	if wk.Try2(func() { idl.GenerateIDL(&buf, "pkg", g.metas) }) {
+		return "package p"
+	}
+	b := buf.Bytes()
+	if len(b) == 0 {
+		return ""
+	}
+	p := rng.Intn(len(b) + 1)
+	if rng.Intn(2) == 0 { // after a complete line
+		for p < len(b) && b[p] != '\n' {
+			p++
+		}
+	}
+	tails := []string{"", "//", " //", "\n//", "// ", "//\n", "//\t\n \n", "//uid:", "//uid:7", "// uid:", "/", "#", "//\r\n", "//\r"}
+	return string(b[:p]) + tails[rng.Intn(len(tails))]
 }
 
 // regen re-prints every signature of the package after struct definitions were renamed.
